@@ -113,6 +113,7 @@ class World:
         self.viol = []
         self.stats = {}
         self.states = set()
+        self.cover = set()
         self.nsid = 0
         self.checkers = []
         self.stdout_closed = False
